@@ -3,6 +3,7 @@ package main
 // C11 - issuance with fixed blinds is reproducible and the token ignores the blind.
 
 import (
+	"fmt"
 	"golang.org/x/tools/go/ssa"
 	"strings"
 )
@@ -22,6 +23,9 @@ func c11(p *Prog, r *Report) {
 	r.Rule(R2, "blind/salt parameters are the blinds handed to DeterministicBlind/FixedBlind (element i with input i)", 3)
 	r.Rule(R3, "no mutable package-level variable touched on the deterministic paths", 3)
 	r.Rule(R4, "state token input contains no blind/salt parameter", 3)
+
+	const R5 = "C11.outcome-independent-of-blind-value"
+	r.Rule(R5, "no rejecting branch of the deterministic request constructors is decided by the bytes of a blind/salt argument other than through the dependency's own scalar decoder / blinding call (lengths may be checked)", 3)
 
 	mut := p.mutableGlobals()
 	det := []struct {
@@ -52,6 +56,28 @@ func c11(p *Prog, r *Report) {
 			g = append(g, x)
 		}
 		r.Check(len(g) == 0, R3, shortName(fn)+": no mutable package-level state", p.Pos(fn.Pos()), "none touched", strings.Join(g, "; "))
+
+		// R5: "under every blind": the constructor refuses no blind for its value
+		{
+			why, nEdges := "", 0
+			for _, bp := range d.blindParams {
+				var k int
+				fmt.Sscanf(bp, "param:%d", &k)
+				if k >= len(fn.Params) {
+					why = "blind parameter " + bp + " not found"
+					break
+				}
+				w, n := verdictIndependentOf(p, fn, fn.Params[k], []string{
+					"group.Scalar).UnmarshalBinary", "oprf.client).DeterministicBlind", "blindrsa.Verifier).FixedBlind", "builtin.copy", "builtin.append",
+				})
+				nEdges += n
+				if w != "" {
+					why = w
+					break
+				}
+			}
+			r.Check(why == "", R5, shortName(fn)+": no blind is refused for its value", p.Pos(fn.Pos()), fmt.Sprintf("%d rejecting branches, none decided by the bytes of a blind/salt argument", nEdges), why+": some blinds are refused, so the token is not the same under every blind")
+		}
 
 		// R4
 		s := p.NewSym(fn)
